@@ -373,6 +373,17 @@ func (r *run) sequence(rng *lib.RNG, steps int) {
 		} else {
 			c.Hit("recv:immutable")
 		}
+		// What KIND of map the step must return follows from the receiver and the operation, not from what came
+		// back: Set / Delete / Clear / Immutable of an immutable map are immutable maps ("derived from it"),
+		// Mutable() is a mutable map; a mutable map returns itself except for Immutable(), a read-only view.
+		// (Seeded change c15h: immutable.Clear() returned a MUTABLE map, which the harness – classifying handles
+		// by what they are – then allowed to change in place.)
+		wantMut := (h.mut && kind != 4) || (!h.mut && kind == 3)
+		if isMutable(res) != wantMut {
+			r.lines = append(r.lines, line)
+			r.fail("kind-of-result", fmt.Sprintf("`%s` on a map that is mutable=%v returned a map that is mutable=%v (a map derived from an immutable map by Set, Delete or Clear is immutable; Mutable() gives a mutable copy; a mutable map answers with itself, Immutable() with a read-only view)", line, h.mut, isMutable(res)))
+			return
+		}
 		j := r.add(res, cell, i, !isMutable(res) || rng.Chance(1, 3))
 		r.op(line, fmt.Sprintf("%d %s", j, sameStr(same)))
 		c.Count(fmt.Sprintf("%d:%s", r.sc.Cases(), line))
